@@ -62,9 +62,13 @@ def blurring_rule(ctx, p, K):
     want0 = (Poly.fn("fdiv", ONE - K0, TWO), Poly.fn("fdiv", K0 + ONE, TWO))
     want1 = (Poly.fn("fdiv", ONE - K1, TWO), Poly.fn("fdiv", K1 + ONE, TWO))
     ok = (l1y.lo, l1y.hi) == want0 and (l1x.lo, l1x.hi) == want1 and l1y.step == ONE and l1x.step == ONE
+    yy, xx = y + y1, x + x1
+    if not ok and isinstance(l1y.lo, Poly) and isinstance(l1x.lo, Poly) and (l1y.lo - y, l1y.hi - y) == want0 and (l1x.lo - x, l1x.hi - x) == want1 and l1y.step == ONE and l1x.step == ONE:
+        # the same footprint walked in absolute coordinates: for yb in range(y + lo, y + hi) - the loop variable is the footprint pixel itself
+        ok = True
+        yy, xx = y1, x1
     ctx.ob(rule, f.key + ":footprint", ok, where=f, node=st.node, construct=f"{l1y!r}; {l1x!r}",
            message="the footprint offsets must be range((-K+1)//2, (K+1)//2) with the y offsets from kernel axis 0 and the x offsets from kernel axis 1")
-    yy, xx = y + y1, x + x1
     ctx.ob(rule, f.key + ":target", st.idx == (yy, xx) and isinstance(st.value, Const) and st.value.v is False, where=f, node=st.node, construct=repr(st)[:140], message="the pixel at (y + y1, x + x1) must be unmasked (set False)")
     gs = real_guards(st.guards)
     # the in-frame test may guard the store directly, or be the precondition whose failure raises (`if not in_frame: raise`): either way the store runs only in-frame
